@@ -31,6 +31,30 @@ enum Scenario {
     Early { k: usize, queued_behind: bool },
     /// AsyncClient::forward_message with a caller-supplied id equal to the id of one of n calls in flight
     ForwardDuplicate { n: usize, victim: usize },
+    /// a batch longer than any internal worker pool (the blocking client caps its workers at 64): the peer answers
+    /// in waves (everything received so far, in the given order) until all n are answered
+    BigBatch { kind: Option<Kind>, n: usize, order: WaveOrder },
+}
+
+#[derive(Clone, Copy, Debug, PartialEq)]
+enum WaveOrder {
+    InOrder,
+    Reverse,
+    Rotate,
+}
+
+fn wave(order: WaveOrder, mut v: Vec<u64>) -> Vec<u64> {
+    match order {
+        WaveOrder::InOrder => {}
+        WaveOrder::Reverse => v.reverse(),
+        WaveOrder::Rotate => {
+            if !v.is_empty() {
+                let k = v.len() / 2;
+                v.rotate_left(k);
+            }
+        }
+    }
+    v
 }
 
 fn permutations(n: usize) -> Vec<Vec<usize>> {
@@ -109,6 +133,22 @@ fn scenarios(tier: Tier) -> Vec<Scenario> {
     for n in 1..=3 {
         for victim in 0..n {
             v.push(Scenario::ForwardDuplicate { n, victim });
+        }
+    }
+    let cores = std::thread::available_parallelism().map(|n| n.get()).unwrap_or(4);
+    let mut sizes = vec![63usize, 64, 65, 66, 129, 4 * cores + 1];
+    if tier == Tier::Thorough {
+        sizes.extend([127, 128, 130, 200, 8 * cores + 1]);
+    }
+    sizes.sort();
+    sizes.dedup();
+    for n in sizes {
+        for order in [WaveOrder::InOrder, WaveOrder::Reverse, WaveOrder::Rotate] {
+            v.push(Scenario::BigBatch { kind: None, n, order });
+            if n <= 130 {
+                v.push(Scenario::BigBatch { kind: Some(Kind::Async), n, order });
+                v.push(Scenario::BigBatch { kind: Some(Kind::Ws), n, order });
+            }
         }
     }
     v
@@ -448,6 +488,124 @@ fn run_perm_blocking(n: usize, perm: &[usize], extra: Extra, pos: usize, batch: 
     (bad, if batch { 64 } else { 32 })
 }
 
+/// tokio clients: a batch of n, answered in waves.
+async fn run_big_batch(kind: Kind, n: usize, order: WaveOrder) -> (Bad, u64) {
+    let mut bad = Bad::new();
+    let Conn { cli, mut peer, .. } = clients::connect(kind).await;
+    let tags: Vec<u64> = (0..n as u64).map(|i| 9000 + i).collect();
+    let h = tokio::spawn(cli.batch(tags.clone()));
+    let mut ids = std::collections::BTreeMap::new();
+    let mut answered = 0usize;
+    for _round in 0..n + 2 {
+        let reqs = match peer.drain_requests().await {
+            Ok(r) => r,
+            Err(e) => return (vec![("C04:request-stream-malformed".into(), e)], 0),
+        };
+        if reqs.is_empty() {
+            break;
+        }
+        let new = clients::tag_ids(&reqs);
+        let todo = wave(order, reqs.iter().map(|f| f.h.id).collect());
+        ids.extend(new);
+        for id in todo {
+            peer.send(&clients::reply(id)).await;
+            answered += 1;
+        }
+        memstream::settle().await;
+        if answered >= n {
+            break;
+        }
+    }
+    match tokio::time::timeout(clients::HOUR, h).await {
+        Ok(Ok(results)) => {
+            if results.len() != n {
+                bad.push(("C04:batch-length".into(), format!("{}: batch of {n} returned {} results", kind.name(), results.len())));
+            }
+            for (i, r) in results.into_iter().enumerate() {
+                let r = clients::classify(r);
+                let own = ids.get(&tags[i]).copied().unwrap_or(0);
+                if r != Res::Id(own) {
+                    bad.push(("C04:batch-misaligned".into(), format!("{}: batch of {n} answered in {order:?} waves: result #{i} is {r:?}, the request at that position had id {own}", kind.name())));
+                    break;
+                }
+            }
+        }
+        _ => bad.push(("C04:wrong-response:hang".into(), format!("{}: batch of {n} did not return ({answered} answered)", kind.name()))),
+    }
+    (bad, 128)
+}
+
+/// blocking Client over loopback TCP: a batch of n, answered in waves (a wave ends when
+/// nothing more arrives for 60 ms of real time; how the requests split into waves does not
+/// matter to the oracle, only that every request is answered once).
+fn run_big_batch_blocking(n: usize, order: WaveOrder) -> (Bad, u64) {
+    use std::io::{Read, Write};
+    let mut bad = Bad::new();
+    let ctx = format!("blocking Client batch of {n} answered in {order:?} waves");
+    let listener = std::net::TcpListener::bind("127.0.0.1:0").expect("bind");
+    let addr = listener.local_addr().unwrap();
+    let client = match repe::Client::connect(addr) {
+        Ok(c) => c,
+        Err(e) => return (vec![("C04:harness".into(), format!("connect: {e}"))], 0),
+    };
+    let (mut peer, _) = listener.accept().expect("accept");
+    peer.set_read_timeout(Some(std::time::Duration::from_millis(60))).ok();
+    let tags: Vec<u64> = (0..n as u64).map(|i| 9000 + i).collect();
+    let t = std::time::Duration::from_secs(20);
+    let reqs: Vec<(String, Value)> = tags.iter().map(|t| ("/p".to_string(), json!({"t": t}))).collect();
+    let caller = std::thread::spawn(move || client.batch_json_with_timeout(reqs, t).into_iter().map(clients::classify).collect::<Vec<Res>>());
+    let mut ids = std::collections::BTreeMap::new();
+    let (mut buf, mut pending, mut answered) = (Vec::new(), Vec::new(), 0usize);
+    let begun = std::time::Instant::now();
+    let mut chunk = [0u8; 8192];
+    while answered < n && begun.elapsed() < std::time::Duration::from_secs(25) {
+        match peer.read(&mut chunk) {
+            Ok(0) => break,
+            Ok(k) => {
+                buf.extend_from_slice(&chunk[..k]);
+                loop {
+                    match crate::frames::parse_one(&buf) {
+                        Ok(Some((f, k))) => {
+                            if let Some(t) = clients::tag_of(&f) {
+                                ids.insert(t, f.h.id);
+                            }
+                            pending.push(f.h.id);
+                            buf.drain(..k);
+                        }
+                        Ok(None) => break,
+                        Err(e) => {
+                            bad.push(("C04:request-stream-malformed".into(), format!("{ctx}: {e}")));
+                            return (bad, 0);
+                        }
+                    }
+                }
+            }
+            Err(e) if matches!(e.kind(), std::io::ErrorKind::WouldBlock | std::io::ErrorKind::TimedOut) => {
+                for id in wave(order, std::mem::take(&mut pending)) {
+                    let _ = peer.write_all(&clients::reply(id).to_bytes());
+                    answered += 1;
+                }
+            }
+            Err(_) => break,
+        }
+    }
+    for id in wave(order, std::mem::take(&mut pending)) {
+        let _ = peer.write_all(&clients::reply(id).to_bytes());
+    }
+    let results = caller.join().unwrap_or_else(|_| vec![Res::Err("caller panicked".into())]);
+    if results.len() != n {
+        bad.push(("C04:batch-length".into(), format!("{ctx}: {} results for {n} requests", results.len())));
+    }
+    for (i, r) in results.iter().enumerate() {
+        let own = ids.get(&tags[i]).copied().unwrap_or(0);
+        if *r != Res::Id(own) {
+            bad.push(("C04:batch-misaligned".into(), format!("{ctx}: result #{i} is {r:?}, the request at that position had id {own}")));
+            break;
+        }
+    }
+    (bad, 256)
+}
+
 pub fn run(tier: Tier) -> ! {
     let ctx = Ctx::new("C04", tier);
     let all = scenarios(tier);
@@ -471,6 +629,8 @@ pub fn run(tier: Tier) -> ! {
                     Scenario::ForwardDuplicate { n, victim } => run_forward_duplicate(*n, *victim).await,
                     Scenario::PermBlocking { n, perm, extra, pos } => run_perm_blocking(*n, perm, *extra, *pos, false),
                     Scenario::BatchBlocking { n, perm } => run_perm_blocking(*n, perm, Extra::None, 0, true),
+                    Scenario::BigBatch { kind: Some(k), n, order } => run_big_batch(*k, *n, *order).await,
+                    Scenario::BigBatch { kind: None, n, order } => run_big_batch_blocking(*n, *order),
                 }
             });
             *n += 1;
@@ -546,6 +706,8 @@ pub fn replay(case: &Value) -> Result<(), String> {
             Scenario::ForwardDuplicate { n, victim } => run_forward_duplicate(*n, *victim).await,
             Scenario::PermBlocking { n, perm, extra, pos } => run_perm_blocking(*n, perm, *extra, *pos, false),
             Scenario::BatchBlocking { n, perm } => run_perm_blocking(*n, perm, Extra::None, 0, true),
+            Scenario::BigBatch { kind: Some(k), n, order } => run_big_batch(*k, *n, *order).await,
+            Scenario::BigBatch { kind: None, n, order } => run_big_batch_blocking(*n, *order),
         }
     });
     if b.is_empty() { Ok(()) } else { Err(b.into_iter().map(|(k, w)| format!("{k}: {w}")).collect::<Vec<_>>().join("\n")) }
